@@ -738,6 +738,29 @@ class LayoutPlugin(Plugin):
             return LStr([Lit(x.text.upper()) if isinstance(x, Lit) else x for x in s.segs])
         raise Unsupported("upper on a token")
 
+    def m_isdigit(self, I, s):
+        """str.isdigit, on the same footing as int(): a whole integer token is all digits iff it carries no sign, a
+        fixed-point token never is (it holds a '.'), a name token is taken not to be (as int() of a name raises)."""
+        segs = self.prune(s.segs)
+        if not segs:
+            return False
+        if all(isinstance(z, Lit) for z in segs):
+            return "".join(z.text for z in segs).isdigit()
+        if len(segs) == 1 and isinstance(segs[0], TokS):
+            seg = segs[0]
+            if seg.tok.kind == "int":
+                if self.ctx.branch(seg.whole(), None):
+                    return sym.num_cmp(">=", seg.tok.value, 0)
+                return self.ctx.fresh("cut_isdigit", "Bool")
+            if seg.tok.kind == "fixed":
+                if self.ctx.branch(seg.whole(), None):
+                    return False
+                return self.ctx.fresh("cut_isdigit", "Bool")
+            return False
+        if any(isinstance(z, Sp) for z in segs):
+            return False
+        return self.ctx.fresh("glued_isdigit", "Bool")
+
     # ---------------------------------------------------------------- conversions
     def convert(self, I, what, x):
         if not isinstance(x, LStr):
